@@ -18,7 +18,7 @@ SIZES = {'quick': (40, 24, 6, 1, 9, 5), 'thorough': (400, 500, 80, 6, 18, 60)}
 def _judge(rep, cases, wd, tag):
     """TLC judges `cases`; returns number of violations added."""
     nv = 0
-    slim = [{k: c[k] for k in ('key', 'frames', 'tindex', 'alpha', 'pngalpha', 'anim', 'obs')} for c in cases]
+    slim = [{k: c[k] for k in ('frames', 'tindex', 'alpha', 'pngalpha', 'anim', 'obs')} for c in cases]
     # batches bounded by JSON size
     batches, cur, size = [], [], 0
     for i, c in enumerate(slim):
@@ -39,7 +39,7 @@ def _judge(rep, cases, wd, tag):
             if clause.startswith('machinery'):
                 raise MachineryError('PngCases: %s for %s' % (clause, c['key']))
             short = ':'.join(clause.split(':')[:2])
-            if rep.violation('png:%s:%s' % (c['key'], short),
+            if rep.violation('png:%s:%s' % (c['vkey'], short),
                              '%s via %s: clause %s%s' % (c['key'], c['route'], clause,
                                                           ' (macro: %s)' % c['macro'] if c.get('macro') else ''),
                              {k: c[k] for k in c if k != 'obs'} | {'clause': clause, 'obs_head': {k: c['obs'][k] for k in ('chunks', 'ihdr', 'pal', 'trns')}}):
@@ -99,6 +99,11 @@ def _vacuity(cases, stats, rep):
             flips.add(f['flip'])
             rots.add(f['rot'])
             masks.add((f['mask'], any(t['m'] for row in f['udgs'] for t in row), all(t['m'] for row in f['udgs'] for t in row)))
+    far = sum(1 for c in cases if not c.get('exc') and len(c['obs']['frames']) == 2
+              and pngdrv.exc_class(c) == 'flash+cropped+origin>size')
+    rep.extra['flash_frames_with_crop_origin_beyond_size'] = far
+    if not far:
+        raise MachineryError('vacuous C15 run: no flashing cropped frame with crop origin beyond its size')
     need_pal = [(cl, t) for cl in ('1', '2', '3-4', '5-16') for t in (False, True)]
     problems = []
     if len(attrs) != 256:
@@ -208,11 +213,12 @@ def replay(path):
         log('replaying through the API the abstract input of a %s case' % c.get('route'))
     for fr in c['frames']:
         fr.setdefault('inv', 0)
+    c.setdefault('vkey', 'replay')
     for generic in (False, True):
         try:
             png, used = pngdrv.run_api(c, generic=generic)
         except Exception as e:
-            rep.violation('png:%s:exception' % c['key'], 'raised %s: %s' % (type(e).__name__, e), c)
+            rep.violation('png:exception:%s:%s' % (type(e).__name__, pngdrv.exc_class(c)), 'raised %s: %s' % (type(e).__name__, e), c)
             continue
         case = dict(c, obs=pngdrv.project(png), enc=used, route='api-generic' if generic else 'api')
         _judge(rep, [case], wd, 'replay')
